@@ -401,7 +401,11 @@ def rlt_refute(ses, G1, H1, vars1, G2, H2, vars2, extra_ge, viol_gt, label, time
             cs.append(lin(h * Poly.var(v)) == 0)
     cs += [lin(e) >= 0 for e in extra_ge]
     neg = [lin(v) > 0 for v in viol_gt]
-    return ses.solve(cs + [z3.Or(neg)], timeout_ms=timeout_ms, label=label + '/rlt'), cs
+    # equalities first: Gaussian elimination (solve-eqs) shrinks the system ~50x before simplex sees it
+    res = ses.solve(cs + [z3.Or(neg)], timeout_ms=timeout_ms, tactic=('simplify', 'solve-eqs', 'smt'), label=label + '/rlt')
+    if res[0] == 'unknown':
+        res = ses.solve(cs + [z3.Or(neg)], timeout_ms=timeout_ms, label=label + '/rlt-plain')
+    return res, cs
 
 
 def rlt_block(ses, cp, blk, G2, H2, T2, vars2, viol, label, kind, sample=None, timeout_ms=None, Q2=()):
@@ -432,7 +436,7 @@ def rlt_block(ses, cp, blk, G2, H2, T2, vars2, viol, label, kind, sample=None, t
         st.obligations += 1
         st.kinds[kind] = st.kinds.get(kind, 0) + 1
         st.twins += 1
-        r2, _ = ses.solve(lincs, timeout_ms=timeout_ms, label=label + '/rlt-twin')
+        r2, _ = ses.solve(lincs, timeout_ms=timeout_ms or 20000, tactic=('simplify', 'solve-eqs', 'smt'), label=label + '/rlt-twin')
         if r2 == 'sat':
             st.twins_ok += 1
         elif r2 == 'unsat':
